@@ -134,6 +134,24 @@ func (o Op) String() string {
 	return o.K
 }
 
+// Recomb returns comb with its last mark exchanged for a different one (nil if comb is empty):
+// content that differs from what the cell holds only in one combining rune.
+func Recomb(comb []rune) []rune {
+	if len(comb) == 0 {
+		return nil
+	}
+	out := append([]rune(nil), comb...)
+	marks := []rune{0x300, 0x301, 0x308, 0x323}
+	for i, m := range marks {
+		if out[len(out)-1] == m {
+			out[len(out)-1] = marks[(i+1)%len(marks)]
+			return out
+		}
+	}
+	out[len(out)-1] = marks[0]
+	return out
+}
+
 func OpsString(ops []Op) string {
 	var ss []string
 	for _, o := range ops {
@@ -362,7 +380,8 @@ func Gen(r *rand.Rand, o GenOpts) (int, int, []Op) {
 			ops = append(ops, o2)
 		case k < 62:
 			// re-store whatever the cell holds now (identical content)
-			ops = append(ops, Op{K: "restore", X: r.IntN(cw), Y: r.IntN(ch), CS: r.IntN(3)})
+			// (via 3, 4: same base rune and style, the last combining mark exchanged for another)
+			ops = append(ops, Op{K: "restore", X: r.IntN(cw), Y: r.IntN(ch), CS: r.IntN(5)})
 		case k < 70:
 			ops = append(ops, Op{K: "show"})
 		case k < 75:
